@@ -722,8 +722,13 @@ fn cmd_check(args: &[String]) -> i32 {
                 exit = 1;
             }
             Err(e) => {
-                eprintln!("HARNESS ERROR: census finding {} could not be turned into a replay: {}", sig, e);
-                return 2;
+                if exit == 1 {
+                    // other violations of this property are already reported with replays; the census hit is noted only
+                    println!("  note: census finding {} not turned into a replay of its own ({})", sig, e);
+                } else {
+                    eprintln!("HARNESS ERROR: census finding {} could not be turned into a replay: {}", sig, e);
+                    return 2;
+                }
             }
         }
     }
@@ -986,7 +991,14 @@ fn census_replay(prop: usize, pid_s: &str, seed: u64, sig: &str, a: (u8, u64, u6
         let out = run_one(seed, prop, x.0 == 1, x.1);
         // re-execute with root recording and look for the key fingerprint among server positions
         let r = replay(&out.script, armed_for(prop), true);
-        for f in r.roots.iter().flatten() {
+        let mut cands: Vec<String> = r.roots.iter().flatten().cloned().collect();
+        for st in out.script.iter() {
+            if let ops::Op::Pair { a, b } = &st.op {
+                cands.push(a.clone());
+                cands.push(b.clone());
+            }
+        }
+        for f in cands.iter() {
             if let Some(p) = model::Pos::from_fen(f) {
                 let kb = p.key_beside();
                 if rng::fp64(&kb) == x.2 && rng::fp64b(&kb) == x.3 {
